@@ -12,7 +12,9 @@ import (
 	"runtime"
 	"sort"
 	"strconv"
+	"strings"
 	"sync"
+	"syscall"
 	"time"
 
 	"github.com/jech/storrent/alloc"
@@ -268,6 +270,8 @@ func errClass(err error) string {
 		return "odd"
 	case err.Error() == "adding data beyond end of piece":
 		return "beyond"
+	case err == syscall.ENOMEM || strings.Contains(err.Error(), "cannot allocate memory"):
+		return "nomem"
 	}
 	return "other:" + err.Error()
 }
@@ -282,7 +286,7 @@ func (w *world) exec(th *thread) Ret {
 		var begin uint32
 		var data []byte
 		switch o.Sh {
-		case "ok":
+		case "ok", "nomem":
 			lo, _ := w.chunkRange(o.I, o.C)
 			begin = uint32(lo)
 			data = w.block(o.I, o.C, o.N, o.Q)
@@ -304,7 +308,7 @@ func (w *world) exec(th *thread) Ret {
 		r.B = complete
 		// the model counts abstract chunks consumed
 		r.N = -1
-		if o.Sh == "ok" {
+		if o.Sh == "ok" || o.Sh == "nomem" {
 			want := 0
 			cnt := 0
 			for k := o.C; k < o.C+o.N && k < w.nch[o.I]; k++ {
@@ -403,8 +407,34 @@ func (w *world) classify(i, c, lo int, p []byte) (int, []string) {
 }
 
 // run releases thread th until its next yield point or its return.
+// noMem lowers the address-space limit of the process to what it uses now, so
+// that the next anonymous mapping (a piece buffer of 128 KiB or more) is
+// refused by the kernel; the returned function restores the limit.
+func noMem() func() {
+	var old syscall.Rlimit
+	if syscall.Getrlimit(syscall.RLIMIT_AS, &old) != nil {
+		return func() {}
+	}
+	b, err := os.ReadFile("/proc/self/statm")
+	if err != nil {
+		return func() {}
+	}
+	var pages uint64
+	fmt.Sscanf(string(b), "%d", &pages)
+	lim := old
+	lim.Cur = pages*uint64(os.Getpagesize()) + 32<<10
+	if syscall.Setrlimit(syscall.RLIMIT_AS, &lim) != nil {
+		return func() {}
+	}
+	return func() { syscall.Setrlimit(syscall.RLIMIT_AS, &old) }
+}
+
 func (w *world) run(th *thread) bool {
 	current = th
+	if th.op.K == "add" && th.op.Sh == "nomem" && th.pc == "AddCrit" && w.psize >= 128<<10 {
+		// the allocation this step may need is refused
+		defer noMem()()
+	}
 	th.resume <- struct{}{}
 	select {
 	case st := <-th.status:
